@@ -191,7 +191,7 @@ func oracle(s spec) func(c *gridx.Case, r *vf.Rec) {
 }
 
 func spaces(tier string) []*gridx.Space {
-	T := 4
+	T := 5
 	if tier == "thorough" {
 		T = 6
 	}
